@@ -130,6 +130,11 @@ def install():
                               "what": f"rolling buffer {_shp(shape)} between operations {_i(prod.index)} and {_i(cons.index)} of cascade "
                                       f"{_i(ci.start)}..{_i(ci.end)} ({r.label}): producer stripe {_shp(ps)}, consumer stripe input {_shp(cs)}"})
             if self.spilling:
+                cache = _i(getattr(self.sched_ops[0].arch, "arena_cache_size", limit))
+                # Dedicated SRAM: the limit the builder works with is the size of the SRAM cache at most
+                _spec.append({"kind": "guide_limit", "line": f"smle {_i(limit)} {cache}",
+                              "what": f"Dedicated SRAM: build_cascades ({r.label}) accepted cascade {_i(ci.start)}..{_i(ci.end)} under the limit "
+                                      f"{_i(limit)}, arena cache size {cache}"})
                 # Dedicated SRAM: the buffers of an accepted cascade fit the limit the builder was given
                 _spec.append({"kind": "spill_limit", "line": f"smle {_i(ci.mem_usage) + info['nl']} {_i(limit)}",
                               "what": f"cascade {_i(ci.start)}..{_i(ci.end)} ({r.label}) accepted with buffers of {_i(ci.mem_usage) + info['nl']} bytes, limit {_i(limit)}"})
@@ -341,8 +346,13 @@ def install():
         fast_area, fast_type = self.arch.fast_storage_mem_area, MemType.Scratch_fast
         g = top.get("graph")
         evicted_t = {id(t) for lr in top["evicted"] for t in lr.tensors}
+        writers = {}
+        for row in rows or []:
+            writers[id(row["tens"])] = writers.get(id(row["tens"]), 0) + 1
         for row in rows or []:
             t = row["tens"]
+            if writers[id(t)] > 1:
+                continue            # several operations write this tensor (concatenation): which of them moved it is not observable
             # the loop "Force all OFMs to fast-storage": moved = the tensor was entered into scratched_fms / placed in fast storage
             moved = (not row["known"] and t in self.scratched_fms) or \
                 (row["known"] and row["before"] != (fast_area, fast_type) and ((t.mem_area, t.mem_type) == (fast_area, fast_type) or id(t) in evicted_t))
@@ -607,6 +617,27 @@ def corpus(ck, n):
     return outs
 
 
+def replay(ck):
+    """--replay of a violation found on one of the networks of harness/sched_nets.py"""
+    import json
+
+    import common
+
+    if not ck.replay_arg:
+        return False
+    r = json.load(open(ck.replay_arg))
+    rp = r.get("replay", r)
+    if rp.get("profile") != "sched_nets":
+        return False
+    out = _worker((rp["seed"], rp["index"]))
+    if "harness_exception" in out:
+        raise common.InfraError(out["harness_exception"])
+    st = stage(ck, [out])
+    ck.finish(dict(st, programs=1, evaluations=st["sched_model_requests"] + st["sched_spec_requests"],
+                   distinct_nontrivial=st["sched_distinct_nontrivial"], rule="replay of one network of harness/sched_nets.py", exhaustive=False))
+    return True
+
+
 def extra_with(other):
     """combine with another stage's `extra` (the compilations of the check itself)"""
     def f(res):
@@ -614,7 +645,27 @@ def extra_with(other):
     return f
 
 
-KNOWN_KEYS = {}
+KNOWN_KEYS = {"guide_limit": "dedicated-sram-size-guide-limit-above-arena-cache"}
+
+TITLES = {"buffer": "rolling buffer of an accepted cascade is not sufficient for the stripes of the schedule it belongs to",
+          "estimate": "the memory the cascade builder attributed to an accepted cascade is below the bytes in use at its time index",
+          "snapshot": "memory snapshot entry differs from the bytes in use at that tick (tick:snapshot:in use)",
+          "fast_fits": "fast storage exceeds the staging limit at a tick where movable feature maps are kept (tick:final:fixed)",
+          "move": "a feature map that is referred to outside the NPU subgraph was placed in fast storage",
+          "spill_limit": "Dedicated SRAM: an accepted cascade's buffers exceed the limit the builder was given",
+          "accept_limit": "optimize_sub_schedule accepted a proposal whose estimate exceeds the limit",
+          "wbuf_fits": "weight buffers exceed the slack they were sized for",
+          "fast_extent": "Dedicated SRAM: fast-scratch extent exceeds the arena cache size",
+          "guide_limit": "Dedicated SRAM: the cascade builder's hard limit exceeds the arena cache size"}
+
+
+def extra_c12(res):
+    """want['extra'] of check_C12: its own record (live ranges + in-place chain) with this stage's record added"""
+    import inplace_lib
+
+    d = inplace_lib.extra_with_liverange(res)
+    d["sched"] = extra(res)
+    return d
 
 
 def stage(ck, outs, prefix="sched_"):
@@ -624,6 +675,11 @@ def stage(ck, outs, prefix="sched_"):
 
     import common
 
+    import pending
+
+    for k, what in pending.pending_keys("C12").items():
+        if not any(x["key"] == k for x in ck.known):
+            ck.known.append({"property": ck.pid, "key": k, "what": what})
     t0 = time.time()
     recs, owners = [], []
     specs, sowners = [], []
@@ -688,21 +744,16 @@ def stage(ck, outs, prefix="sched_"):
         if not ok:
             rejected.setdefault((o["profile"], o["idx"], o["seed"]), []).append((s, a))
     for key, lst in rejected.items():
-        s, a = lst[0]
         o = next(o for o in sowners if (o["profile"], o["idx"], o["seed"]) == key)
-        titles = {"buffer": "rolling buffer of an accepted cascade is not sufficient for the stripes of the schedule it belongs to",
-                  "estimate": "the memory the cascade builder attributed to an accepted cascade is below the bytes in use at its time index",
-                  "snapshot": "memory snapshot entry differs from the bytes in use at that tick (tick:snapshot:in use)",
-                  "fast_fits": "fast storage exceeds the staging limit at a tick where movable feature maps are kept (tick:final:fixed)",
-                  "move": "a feature map that is referred to outside the NPU subgraph was placed in fast storage",
-                  "spill_limit": "Dedicated SRAM: an accepted cascade's buffers exceed the limit the builder was given",
-                  "accept_limit": "optimize_sub_schedule accepted a proposal whose estimate exceeds the limit",
-                  "wbuf_fits": "weight buffers exceed the slack they were sized for",
-                  "fast_extent": "Dedicated SRAM: fast-scratch extent exceeds the arena cache size"}
-        ck.violation(f"scheduler bookkeeping: {titles.get(s['kind'], s['kind'])}: {s['what']} -> {a} "
-                     f"({len(lst)} rejection(s) in network {o['idx']} {o['profile']} {o.get('opts')})",
-                     rp(o, {"spec_request": s["line"][:4000], "verdict": a, "all": [(x["kind"], y) for x, y in lst[:8]]}),
-                     found_input=True, key=KNOWN_KEYS.get(s["kind"]))
+        by_kind = {}
+        for s, a in lst:
+            by_kind.setdefault(s["kind"], []).append((s, a))
+        for kind, l2 in by_kind.items():
+            s, a = l2[0]
+            ck.violation(f"scheduler bookkeeping: {TITLES.get(kind, kind)}: {s['what']} -> {a} "
+                         f"({len(l2)} rejection(s) in network {o['idx']} {o['profile']} {o.get('opts')})",
+                         rp(o, {"spec_request": s["line"][:4000], "verdict": a, "all": [(x["kind"], y) for x, y in lst[:8]]}),
+                         found_input=True, key=KNOWN_KEYS.get(kind))
     # model = real
     disagreements = []
     kinds = {}
